@@ -14,6 +14,8 @@ var _ Frame = &Priority{}
 type Priority struct {
 	stream uint32
 	weight byte
+	// exclusive is the E bit in front of the stream dependency.
+	exclusive bool
 }
 
 func (pry *Priority) Type() FrameType {
@@ -24,11 +26,23 @@ func (pry *Priority) Type() FrameType {
 func (pry *Priority) Reset() {
 	pry.stream = 0
 	pry.weight = 0
+	pry.exclusive = false
 }
 
 func (pry *Priority) CopyTo(p *Priority) {
 	p.stream = pry.stream
 	p.weight = pry.weight
+	p.exclusive = pry.exclusive
+}
+
+// Exclusive reports whether the stream dependency is exclusive.
+func (pry *Priority) Exclusive() bool {
+	return pry.exclusive
+}
+
+// SetExclusive makes the stream dependency exclusive.
+func (pry *Priority) SetExclusive(value bool) {
+	pry.exclusive = value
 }
 
 // Stream returns the Priority frame stream.
@@ -56,6 +70,7 @@ func (pry *Priority) Deserialize(fr *FrameHeader) (err error) {
 		err = ErrMissingBytes
 	} else {
 		pry.stream = http2utils.BytesToUint32(fr.payload) & (1<<31 - 1)
+		pry.exclusive = fr.payload[0]&0x80 != 0
 		pry.weight = fr.payload[4]
 	}
 
@@ -64,5 +79,9 @@ func (pry *Priority) Deserialize(fr *FrameHeader) (err error) {
 
 func (pry *Priority) Serialize(fr *FrameHeader) {
 	fr.payload = http2utils.AppendUint32Bytes(fr.payload[:0], pry.stream)
+	if pry.exclusive {
+		fr.payload[0] |= 0x80
+	}
+
 	fr.payload = append(fr.payload, pry.weight)
 }
